@@ -814,3 +814,44 @@ add("writer-02-hll-save-appends-trailer", ["C20"], "hyperloglog",
 add("E-writer-01-hh-save-normalises-path", ["C20", "C10"], "heavyhitters",
     "        np.savez(\n            filename,\n            args=np.array(\n                [self.width, self.depth, self.max_key_len, self.phi], np.float64",
     "        filename = Path(filename)\n        np.savez(\n            filename,\n            args=np.array(\n                [self.width, self.depth, self.max_key_len, self.phi], np.float64", kind="E")
+
+
+def _add_unrelated_code(src):
+    """New attribute in every constructor, a new method on every class, a new module-level helper and constant,
+    a logging call at the top of every Python-level method body (not kernels)."""
+    out = dict(src)
+    for k, v in src.items():
+        if k in ("hll_constants", "hll_bias_experiment", "__init__"):
+            continue
+        tree = _ast.parse(v)
+        for c in _ast.walk(tree):
+            if isinstance(c, _ast.ClassDef):
+                for f in c.body:
+                    if isinstance(f, _ast.FunctionDef) and f.name == "__init__":
+                        f.body.append(_ast.parse("self._verif_created_at = 0").body[0])
+                c.body.append(_ast.parse("def describe(self):\n    return '%s(%r)' % (type(self).__name__, self.args)").body[0])
+        tree.body.append(_ast.parse("_UNRELATED_CONSTANT = 12345").body[0])
+        tree.body.append(_ast.parse("def _unrelated_helper(x):\n    return x + _UNRELATED_CONSTANT").body[0])
+        out[k] = _ast.unparse(_ast.fix_missing_locations(tree)) + "\n"
+    return out
+
+
+add("E-global-04-unrelated-additions", ALL_PROPS, "*", _add_unrelated_code, None, kind="E",
+    note="extra attribute in every constructor, extra method on every class, extra module-level helper and constant")
+
+add("dfg-14-fasthash-tail4-signed-word-load", ["C11"], "hashes",
+    "    elif switch_case == 4:\n        tail = key[nblocks * 8 :]\n        v = uint64(0)\n        v = _xor_shiftl(v, tail[3], 24)\n        v = _xor_shiftl(v, tail[2], 16)\n        v = _xor_shiftl(v, tail[1], 8)\n        v ^= uint64(tail[0])",
+    "    elif switch_case == 4:\n        v = uint64(np.frombuffer(key[nblocks * 8 :], np.int32)[0])", rules=["dfg", "bytes-once", "blocksize"])
+
+add("findbase-01-no-residual-check (F5 pre-fix)", ["C18"], "countmin",
+    "    M = float64(max_count) - float64(num_reserved)\n    if abs(_func(base, max_count, num_reserved, uint_max)) > 1e-9 * M * base:\n        raise ValueError(\"No base found for which the largest counter equals max_count\")\n    return base",
+    "    return base", rules=["findbase-post"])
+add("findbase-02-check-after-return-path", ["C18"], "countmin",
+    "    if abs(_func(base, max_count, num_reserved, uint_max)) > 1e-9 * M * base:\n        raise ValueError(\"No base found for which the largest counter equals max_count\")\n    return base",
+    "    if base > 2.0:\n        return base\n    if abs(_func(base, max_count, num_reserved, uint_max)) > 1e-9 * M * base:\n        raise ValueError(\"No base found for which the largest counter equals max_count\")\n    return base", rules=["findbase-post"])
+add("findbase-03-residual-of-other-config", ["C18"], "countmin",
+    "    if abs(_func(base, max_count, num_reserved, uint_max)) > 1e-9 * M * base:", "    if abs(_func(base, max_count, uint32(0), uint_max)) > 1e-9 * M * base:", rules=["findbase-post"])
+add("logmerge-09-log8-saturation-after-narrowing", ["C18", "C09"], "countmin",
+    "            elif v >= max_count:\n                cms[row, col] = uint_maxval\n            else:\n                cprime = np.log((v - num_reserved) * (base - 1.0) + 1.0) / np.log(base)\n                cprime = uint8(cprime)\n                clower = cprime + num_reserved",
+    "            else:\n                cprime = np.log((v - num_reserved) * (base - 1.0) + 1.0) / np.log(base)\n                cprime = uint8(cprime)\n                clower = cprime + num_reserved\n                if clower >= uint_maxval:\n                    cms[row, col] = uint_maxval\n                    continue",
+    rules=["logmerge-shape"])
